@@ -45,6 +45,7 @@ OverflowOf(d) == IF IsLeaf(d) THEN "native" ELSE IF d.k = "overflow" THEN d.tag 
 RECURSIVE HasKind(_, _)
 HasKind(d, k) == IF d.k = k THEN TRUE ELSE IF IsLeaf(d) THEN FALSE ELSE HasKind(d.rep, k)
 
+SgnChar(t) == IF t.s = 1 THEN "s" ELSE "u"
 MinI(a, b) == IF a < b THEN a ELSE b
 MaxI2(a, b) == IF a > b THEN a ELSE b
 
